@@ -268,10 +268,15 @@ func writeListOrArray(e *Encoder, d *decodeState, ifWriteTag bool, tagName strin
 			if d.opcode != scanBeginList {
 				return TagList, d.error("different TagType in List")
 			}
-			elemType, err = writeListOrArray(e2, d, false, "")
+			var t byte
+			t, err = writeListOrArray(e2, d, false, "")
 			if err != nil {
 				return tagType, err
 			}
+			if count > 0 && t != elemType {
+				return TagList, d.error("different TagType in List")
+			}
+			elemType = t
 			count++
 			if d.opcode == scanSkipSpace {
 				d.scanWhile(scanSkipSpace)
@@ -342,6 +347,10 @@ func writeListOrArray(e *Encoder, d *decodeState, ifWriteTag bool, tagName strin
 		if _, err = e.w.Write(buf.Bytes()); err != nil {
 			return
 		}
+	}
+	if tagType == 0 {
+		// everything but the typed arrays (which have set it) was written as a list
+		tagType = TagList
 	}
 	d.scanNext()
 	return
